@@ -108,8 +108,9 @@ def run_row(case):
         kw['outstanding_certs'] = {'id-req-1': {'key': open(world.key(4)).read(), 'cert': open(world.crt(4)).read()}}
     verdict = spside.deliver(sp, doc, binding=world.REDIRECT if redirect else None, **kw)
     want = expected_accept(wrs, was, wors, 'R' in shape, 'A' in shape, corrupt is None)
-    if idp_keys in ('encryption-only', 'none') and shape != 'none':
-        want = False        # a signature that is present cannot verify
+    advice_signed = (ident.get('enc_advice') and not row['enc']) or (ident.get('plain_advice') and not ident.get('enc_advice'))
+    if idp_keys in ('encryption-only', 'none') and (shape != 'none' or advice_signed):
+        want = False        # a signature that is present (the advice assertion's own one included) cannot verify
     got = verdict[0] == 'accept'
     if got and not want:
         raise Violation('accepted-against-table', 'options wrs/was/wors=%r, %s, signed=%s, corrupted=%r: accepted, table says reject'
